@@ -37,6 +37,9 @@ CHECKS = {
  "C19": dict(engine="irsim", category="exploration", design="DESIGN.md section 6 (C19)", technique="deterministic simulation degenerated to one client: seeded interleavings of annotation calls (valid and invalid) with graph edits, clones and proto round trips; invariants after every op",
    text="History-only. Generated IRv11+ models; 15-60 ops mixing shard/set_pipeline_stage/add/remove(cascade) configuration with renames, replace_input_with, resize_inputs/outputs, Model.clone and from_proto(to_proto(.)) (continuing on the new model); after every op: specs target current inputs/outputs by identity, configurations are the registered objects, the library's own check reports nothing, serialized tensor_name/configuration_id equal current names, rejected requests change nothing.",
    note="workload restricted to what the statement covers (registered configurations, in-range devices, non-empty names, no rank change of a sharded value, cascade=True)."),
+ "C14": dict(engine="irsim", category="exploration", design="DESIGN.md section 6 (C14)", technique="deterministic simulation: seeded pass schedules with faults injected at the ONNX C-API boundary and in lazy-tensor serialization; contract oracles after every pass",
+   text="Generated checker-valid (and deliberately noisy) models x schedules of the 19 exported passes applied singly, to fixpoint, in Sequential / nested PassManager, or functionalized, with faults armed at onnx.checker.check_model / onnx.shape_inference.infer_shapes (ValidationError, RuntimeError, MemoryError) or a lazy initializer that raises during serialization; after every pass: identity rule, modified=False implies byte-identical serialization, bounded convergence and stable fixpoint, C01 invariants, order and serializability preserved, analysis-only passes leave the canonical snapshot exactly unchanged on success and failure.",
+   note="the real ONNX C API runs unless a fault is armed; passes that raise are counted, not flagged."),
 }
 NA = [
  ("C02", "pure function of the input proto: no schedule, clock, fault, crash point or history for a simulator to vary (DESIGN.md section 7)"),
